@@ -4,7 +4,9 @@
 Generates lean/FairModel/Generated/MomentsSrc.lean.  `Model/Moments.lean` computes with these
 definitions and the C06/C07 theorems unfold them, so that a change of a sign, a ratio factor, a
 normalisation or a format string in the source either breaks a proof or changes what the compiled
-model computes.  Everything that is not of the expected shape is refused."""
+model computes.  Also lifted: `_combine_event_and_control` with its notnull guard (`combineEvent`),
+`_merge_event_and_control_columns` (`mergeEvent`) and the `self.ratio` of `UtilityParity.__init__` (`parityRatio`; the
+slack and the accept / reject rule are `parityEps` / `parityCtor` of Generated/ValidationTables.lean).  Everything that is not of the expected shape is refused."""
 import ast
 import copy
 import os
@@ -609,6 +611,167 @@ def _all_event(node):
         _bad(f"'all' event: {ast.unparse(node)}")
 
 
+# ---------------------------------------------------------------------------------------------------------------------
+#  `_combine_event_and_control` / `_merge_event_and_control_columns` / the `self.ratio` of `UtilityParity.__init__`
+# ---------------------------------------------------------------------------------------------------------------------
+def _top_fn(tree, name):
+    hits = [n for n in tree.body if isinstance(n, ast.FunctionDef) and n.name == name]
+    if len(hits) != 1:
+        _bad(f"function {name} not found")
+    return hits[0]
+
+
+def _bool_term(node, atom):
+    """and / or / not over the atoms `atom(node) -> Lean Bool term or None`"""
+    a = atom(node)
+    if a is not None:
+        return a
+    if isinstance(node, ast.BoolOp):
+        op = " && " if isinstance(node.op, ast.And) else " || "
+        return "(" + op.join(_bool_term(v, atom) for v in node.values) + ")"
+    if isinstance(node, ast.UnaryOp) and isinstance(node.op, ast.Not):
+        return f"(!{_bool_term(node.operand, atom)})"
+    if isinstance(node, ast.Constant) and isinstance(node.value, bool):
+        return "true" if node.value else "false"
+    _bad(f"condition of unknown shape: {ast.unparse(node)}")
+
+
+def _lift_combine(up):
+    """`_combine_event_and_control(event, control)` -> Lean term over `event control : Option String` (none = NaN / None):
+    an if / early-return chain whose tests are and / or / not of `pd.notnull(p)` / `pd.isnull(p)` / `p is None` and whose
+    results are a parameter or `_CTRL_EVENT_FORMAT.format(control, event)` (a NaN argument is formatted as `nanText`)"""
+    fn = _top_fn(up, "_combine_event_and_control")
+    params = [a.arg for a in fn.args.args]
+    if sorted(params) != ["control", "event"] or fn.args.vararg or fn.args.kwarg or fn.args.kwonlyargs or fn.args.defaults:
+        _bad(f"_combine_event_and_control parameters changed: {params}")
+
+    def atom(n):
+        if isinstance(n, ast.Call) and len(n.args) == 1 and not n.keywords and isinstance(n.args[0], ast.Name) \
+                and n.args[0].id in params:
+            f = ast.unparse(n.func)
+            if f in ("pd.notnull", "pd.notna"):
+                return f"{n.args[0].id}.isSome"
+            if f in ("pd.isnull", "pd.isna"):
+                return f"(!{n.args[0].id}.isSome)"
+        if isinstance(n, ast.Compare) and len(n.ops) == 1 and isinstance(n.left, ast.Name) and n.left.id in params \
+                and isinstance(n.comparators[0], ast.Constant) and n.comparators[0].value is None:
+            if isinstance(n.ops[0], ast.Is):
+                return f"(!{n.left.id}.isSome)"
+            if isinstance(n.ops[0], ast.IsNot):
+                return f"{n.left.id}.isSome"
+        return None
+
+    def result(v):
+        if isinstance(v, ast.Name) and v.id in params:
+            return v.id
+        if isinstance(v, ast.Call) and ast.unparse(v.func) == "_CTRL_EVENT_FORMAT.format" and not v.keywords \
+                and len(v.args) == 2 and all(isinstance(a, ast.Name) and a.id in params for a in v.args):
+            return f"some (ctrlFormat (txt {v.args[0].id}) (txt {v.args[1].id}))"
+        _bad(f"_combine_event_and_control returns {ast.unparse(v)!r}")
+
+    def block(stmts):
+        stmts = normalize.fold_early_exits(stmts)
+        if len(stmts) == 1 and isinstance(stmts[0], ast.Return) and stmts[0].value is not None:
+            return result(stmts[0].value)
+        if len(stmts) == 1 and isinstance(stmts[0], ast.If) and stmts[0].orelse:
+            return f"(if {_bool_term(stmts[0].test, atom)} then {block(stmts[0].body)} else {block(stmts[0].orelse)})"
+        _bad(f"_combine_event_and_control body of unknown shape: {[ast.unparse(s)[:60] for s in stmts]}")
+
+    term = block(fn.body)
+    if "ctrlFormat" not in term:
+        _bad("_combine_event_and_control never formats")
+    return term
+
+
+def _lift_merge(up):
+    """`_merge_event_and_control_columns(event_col, control_col)`:  `if control_col is None: return event_col` and otherwise
+    `<a>.combine(<b>, _combine_event_and_control)` (pandas calls the function as f(a_i, b_i), row by row) -> Lean term over
+    `hasControl : Bool`, `event control : Option String`"""
+    fn = _top_fn(up, "_merge_event_and_control_columns")
+    params = [a.arg for a in fn.args.args]
+    if params != ["event_col", "control_col"]:
+        _bad(f"_merge_event_and_control_columns parameters changed: {params}")
+    comb = [a.arg for a in _top_fn(up, "_combine_event_and_control").args.args]
+    row = {"event_col": "event", "control_col": "control"}
+
+    def atom(n):
+        if isinstance(n, ast.Compare) and len(n.ops) == 1 and ast.unparse(n.left) == "control_col" \
+                and isinstance(n.comparators[0], ast.Constant) and n.comparators[0].value is None:
+            if isinstance(n.ops[0], ast.Is):
+                return "(!hasControl)"
+            if isinstance(n.ops[0], ast.IsNot):
+                return "hasControl"
+        return None
+
+    def result(v):
+        if isinstance(v, ast.Name) and v.id == "event_col":
+            return "event"
+        if isinstance(v, ast.Call) and isinstance(v.func, ast.Attribute) and v.func.attr == "combine" \
+                and isinstance(v.func.value, ast.Name) and v.func.value.id in row:
+            c = call_like(v, ["other", "func", "fill_value"], "f(a, b)")
+            if len(c.args) == 2 and not c.keywords and isinstance(c.args[0], ast.Name) and c.args[0].id in row \
+                    and c.args[0].id != v.func.value.id and ast.unparse(c.args[1]) == "_combine_event_and_control":
+                bound = dict(zip(comb, (row[v.func.value.id], row[c.args[0].id])))
+                return f"(combineEvent {bound['event']} {bound['control']})"
+        _bad(f"_merge_event_and_control_columns returns {ast.unparse(v)!r}")
+
+    def block(stmts):
+        stmts = normalize.fold_early_exits(stmts)
+        if len(stmts) == 1 and isinstance(stmts[0], ast.Return) and stmts[0].value is not None:
+            return result(stmts[0].value)
+        if len(stmts) == 1 and isinstance(stmts[0], ast.If) and stmts[0].orelse:
+            t, yes, no = stmts[0].test, stmts[0].body, stmts[0].orelse
+            if isinstance(t, ast.Compare) and len(t.ops) == 1 and isinstance(t.ops[0], ast.IsNot):
+                # `if x is not None: A else: B` == `if x is None: B else: A` (the pinned spelling)
+                t = ast.Compare(left=t.left, ops=[ast.Is()], comparators=t.comparators)
+                yes, no = no, yes
+            return f"(if {_bool_term(t, atom)} then {block(yes)} else {block(no)})"
+        _bad(f"_merge_event_and_control_columns body of unknown shape: {[ast.unparse(s)[:60] for s in stmts]}")
+
+    return block(fn.body)
+
+
+def _lift_parity_ratio(up):
+    """the value `UtilityParity.__init__` stores in `self.ratio` along its if / elif chain (a raising branch gives 0, which
+    `Generated.ValidationTables.parityCtor` -- lifted from the same statements -- makes unreachable)"""
+    init = _fn(_cls(up, "UtilityParity"), "__init__")
+    chains = [s for s in init.body if isinstance(s, ast.If) and any(
+        isinstance(n, ast.Assign) and ast.unparse(n.targets[0]) == "self.ratio" for n in ast.walk(s))]
+    outside = [n for s in init.body if s not in chains for n in ast.walk(s)
+               if isinstance(n, (ast.Assign, ast.AugAssign)) and "self.ratio" in ast.unparse(n)]
+    if len(chains) != 1 or outside:
+        _bad("UtilityParity.__init__: self.ratio is not assigned by exactly one if / elif chain")
+    given = {"difference_bound": "difference_bound_given", "ratio_bound": "ratio_bound_given"}
+
+    def atom(n):
+        if isinstance(n, ast.Compare) and len(n.ops) == 1 and isinstance(n.left, ast.Name) and n.left.id in given \
+                and isinstance(n.comparators[0], ast.Constant) and n.comparators[0].value is None:
+            if isinstance(n.ops[0], ast.Is):
+                return f"(!{given[n.left.id]})"
+            if isinstance(n.ops[0], ast.IsNot):
+                return given[n.left.id]
+        return None
+
+    def value(stmts):
+        if len(stmts) == 1 and isinstance(stmts[0], ast.If):
+            return chain(stmts[0])
+        hits = [n for s in stmts for n in ast.walk(s) if isinstance(n, (ast.Assign, ast.AugAssign))
+                and "self.ratio" in ast.unparse(n.targets[0] if isinstance(n, ast.Assign) else n.target)]
+        top = [s for s in stmts if isinstance(s, ast.Assign) and ast.unparse(s.targets[0]) == "self.ratio"]
+        if not hits and stmts and isinstance(stmts[-1], ast.Raise):
+            return "(0 : Rat)"
+        if len(hits) != 1 or top != hits:
+            _bad("UtilityParity.__init__: a branch does not assign self.ratio exactly once (unconditionally)")
+        return expr(top[0].value, {"ratio_bound": "ratio_bound"})
+
+    def chain(node):
+        if not node.orelse:
+            _bad("UtilityParity.__init__: the chain has no final else")
+        return f"(if {_bool_term(node.test, atom)} then {value(node.body)} else {value(node.orelse)})"
+
+    return chain(chains[0])
+
+
 @translate.lifter
 def lift_moments(repo):
     up, mo, er, bg = (_parse(repo, p) for p in (UP, MO, ER, BG))
@@ -622,14 +785,10 @@ def lift_moments(repo):
     all_ev = _module_const(mo, "_ALL").value
     label = _module_const(mo, "_LABEL").value
     default_eps = _rat_of_const(_module_const(up, "_DEFAULT_DIFFERENCE_BOUND"))
-    # ---- combine(event, control): only the format call is lifted (shape-checked) ---
-    comb = [n for n in up.body if isinstance(n, ast.FunctionDef) and n.name == "_combine_event_and_control"]
-    if len(comb) != 1 or [a.arg for a in comb[0].args.args] != ["event", "control"]:
-        _bad("_combine_event_and_control(event, control) not found")
-    fcalls = [n for n in ast.walk(comb[0]) if isinstance(n, ast.Call)
-              and ast.unparse(n.func) == "_CTRL_EVENT_FORMAT.format"]
-    if len(fcalls) != 1 or [ast.unparse(a) for a in fcalls[0].args] != ["control", "event"]:
-        _bad("_combine_event_and_control does not call _CTRL_EVENT_FORMAT.format(control, event) exactly once")
+    # ---- combine(event, control) / merge(event_col, control_col): lifted (the notnull guard included) ---
+    combine_term = _lift_combine(up)
+    merge_term = _lift_merge(up)
+    parity_ratio = _lift_parity_ratio(up)
     # ---- U -------------------------------------------------------------------------
     load = _fn(_cls(up, "UtilityParity"), "load_data")
     env_u = {"event_select": "es", "group_event_select": "ges", "self.prob_event[e]": "pe",
@@ -735,6 +894,15 @@ def clipS (x lo hi : Rat) : Rat := if hi < lo then clipR x hi lo else clipR x lo
 
 /-- `_CTRL_EVENT_FORMAT.format(control, event)` -/
 def ctrlFormat (control event : String) : String := {_lean_str(pre)} ++ control ++ {_lean_str(mid)} ++ event ++ {_lean_str(post)}
+/-- what `str.format` writes for an argument that is NaN (`none`) -/
+def nanText : String := "nan"
+def txt (o : Option String) : String := o.getD nanText
+/-- `_combine_event_and_control(event, control)` on one row; `none` = NaN / None -/
+def combineEvent (event control : Option String) : Option String := {combine_term}
+/-- `_merge_event_and_control_columns(event_col, control_col)` on one row; hasControl = `control_col is not None` -/
+def mergeEvent (hasControl : Bool) (event control : Option String) : Option String := {merge_term}
+/-- the value `UtilityParity.__init__` stores in `self.ratio` (branches that raise: 0, unreachable) -/
+def parityRatio (difference_bound_given ratio_bound_given : Bool) (ratio_bound : Rat) : Rat := {parity_ratio}
 def allEvent : String := {_lean_str(all_ev)}
 /-- `_LABEL + sep + str(v)` for an integer label `v` -/
 def labelEvent (v : Int) : String := {_lean_str(label)} ++ {_lean_str(sep_e)} ++ toString v
@@ -775,5 +943,6 @@ def absoluteLossS (lo hi y p : Rat) : Rat := {ab.replace("(clipR ", "(clipS ")}
 end MomentsSrc
 """
     meta = {"source": [UP, MO, ER, BG], "uPlus": u_plus, "uMinus": u_minus, "gammaOf": g_signed, "swOf": sw,
-            "ctrl_format": fmt, "objWeight": obj_w}
+            "ctrl_format": fmt, "objWeight": obj_w, "combineEvent": combine_term,
+            "mergeEvent": merge_term, "parityRatio": parity_ratio}
     return "MomentsSrc.lean", lean, meta
